@@ -81,4 +81,57 @@ example : okBody exSchema [("l", .arr [.obj [("v", .num "1")]])] = false := by
 example : okBody exSchema [("c", .str [120])] = false := by
   simp (config := { decide := true }) [okBody, okNode, okEntries, member, exSchema, SS.name, isScalar, isNull]
 
+
+
+/- ---- request paths -/
+
+/-- a refused prefix refuses the whole path: an error met on the way is not recovered from -/
+theorem refused_prefix_refuses (cur : Option (List SS)) (p q : List Seg) (h : pathVerdict cur p = .refused) :
+    pathVerdict cur (p ++ q) = .refused := by
+  induction p generalizing cur with
+  | nil => simp [pathVerdict] at h
+  | cons sg rest ih =>
+    cases cur with
+    | none => simp [pathVerdict]
+    | some kids =>
+      simp only [List.cons_append, pathVerdict] at h ⊢
+      cases hk : findKid sg.name kids with
+      | none => simp
+      | some s =>
+        rw [hk] at h
+        cases s with
+        | leaf n l => simp only at h ⊢; split <;> simp_all
+        | anyLeaf n => simp only at h ⊢; split <;> simp_all
+        | cont n ks => simp only at h ⊢; split <;> simp_all
+        | list n keys ks => simp only at h ⊢; split <;> simp_all
+
+/-- **a step below a leaf** is refused, wherever the leaf stands -/
+theorem step_below_leaf_refused (kids : List SS) (sg nxt : Seg) (rest : List Seg) (n : String) (l : Bool)
+    (h : findKid sg.name kids = some (.leaf n l)) : pathVerdict (some kids) (sg :: nxt :: rest) = .refused := by
+  simp only [pathVerdict, h]; split <;> rfl
+
+/-- **a key on a non-list** (leaf or container) is refused -/
+theorem key_on_leaf_refused (kids : List SS) (sg : Seg) (rest : List Seg) (n : String) (l : Bool)
+    (h : findKid sg.name kids = some (.leaf n l)) (hk : sg.hasKey = true) : pathVerdict (some kids) (sg :: rest) = .refused := by
+  simp [pathVerdict, h, hk]
+theorem key_on_container_refused (kids : List SS) (sg : Seg) (rest : List Seg) (n : String) (ks : List SS)
+    (h : findKid sg.name kids = some (.cont n ks)) (hk : sg.hasKey = true) : pathVerdict (some kids) (sg :: rest) = .refused := by
+  simp [pathVerdict, h, hk]
+
+/-- fewer key components than the list has keys is refused (the missing ones would be nil values) -/
+theorem fewer_keys_refused (kids : List SS) (sg : Seg) (rest : List Seg) (n : String) (keys : List String) (ks : List SS)
+    (h : findKid sg.name kids = some (.list n keys ks)) (hk : sg.hasKey = true) (hl : sg.keys.length < keys.length) :
+    pathVerdict (some kids) (sg :: rest) = .refused := by
+  simp [pathVerdict, h, hk, hl]
+
+/-- a name the level does not have is refused -/
+theorem unknown_name_refused (kids : List SS) (sg : Seg) (rest : List Seg) (h : findKid sg.name kids = none) :
+    pathVerdict (some kids) (sg :: rest) = .refused := by
+  simp [pathVerdict, h]
+
+example : pathVerdict (some [.cont "c" [.leaf "x" false], .list "l" ["a", "b"] [.leaf "a" false, .leaf "b" false]])
+    [⟨"l", ["1"], true⟩] = .refused := by decide
+example : pathVerdict (some [.cont "c" [.leaf "x" false], .list "l" ["a", "b"] [.leaf "a" false, .leaf "b" false]])
+    [⟨"l", ["1", "2", "3"], true⟩, ⟨"a", [], false⟩] = .ok := by decide
+example : pathVerdict (some [.cont "c" [.leaf "x" false]]) [⟨"c", [], false⟩, ⟨"x", [], false⟩, ⟨"y", [], false⟩] = .refused := by decide
 end YangVerif.C13
